@@ -19,7 +19,7 @@ pub fn def() -> CheckDef {
         },
         gen,
         run,
-        rule: "one drawn handle script (<= 80 calls of read, read-loop, fill_buf/consume, write, write_all, seek incl. i64/u64 extremes, set_len, flush, len, position, drop+open) on one stream next to a bystander stream; sizes and offsets straddle the buffer capacity (1024*4^k and the configured maximum), 64, 4096 and sector boundaries. The SAME script is executed under every max_buffer_size in {default 1 MiB, 0, 1, 1023, 1024, 1025, 1500, 4096, 5000, 65536} x {V3, V4} = 20 simulated runs per case, each checked call by call against a Vec<u8>+cursor model; across configurations the sequence of (read-loop bytes, len, position, error kinds) must be identical; content is re-read through a fresh handle and after reopen at the end. Non-trivial: >= 1 successful write or set_len; distinct = distinct (seam log, final image) hash of the combined runs.",
+        rule: "one drawn handle script (<= 80 calls of read, read-loop, fill_buf/consume, write, write_all, seek incl. i64/u64 extremes, set_len, flush, len, position, drop+open) on one stream next to a bystander stream; sizes and offsets straddle the buffer capacity (1024*4^k and the configured maximum), 64, 4096 and sector boundaries. The SAME script is executed under every max_buffer_size in {default 1 MiB, 0, 1, 1023, 1024, 1025, 1500, 4096, 5000, 65536} x {V3, V4} = 20 simulated runs per case, each checked call by call against a Vec<u8>+cursor model; for the half of the cases whose script avoids single read()/write()/consume() calls (their counts are a relation) the sequence of all observable results must be identical across the 20 configurations; content is re-read through a fresh handle and after reopen at the end. Non-trivial: >= 1 successful write or set_len; distinct = distinct (seam log, final image) hash of the combined runs.",
         assumptions: &["counts returned by single read()/write()/fill_buf() calls are a relation (1..=min(requested, available)); only their bytes are compared"],
         cpu_limit_s: 60,
         fault_kinds: "none (configuration knob max_buffer_size swept so the buffer-miss paths run)",
@@ -33,6 +33,8 @@ pub fn flags() -> Flags {
 pub fn gen(seed: u64, idx: u64, tier: Tier) -> Case {
     let mut rng = Rng::for_case(seed, "C06", idx);
     let mut c = Case::new("C06", "matrix", 3);
+    let exact = rng.chance(1, 2);
+    c.params.insert("exact".into(), exact as i64);
     let huge = tier == Tier::Thorough && rng.chance(1, 40);
     let max_stream: u64 = if huge { 5_000_000 } else if rng.chance(1, 3) { 300_000 } else { 12_000 };
     let cfg = GenCfg {
@@ -42,7 +44,19 @@ pub fn gen(seed: u64, idx: u64, tier: Tier) -> Case {
         near_miss: 0,
         spellings: 0,
         case_variants: 0,
-        weights: gen::swarm(&mut rng, gen::handle_weights()),
+        weights: {
+            let mut w = gen::swarm(&mut rng, gen::handle_weights());
+            if exact {
+                // calls whose transfer COUNT is a relation make later results
+                // legitimately configuration dependent: leave them out
+                for e in w.iter_mut() {
+                    if matches!(e.0, "h_read" | "h_write" | "h_consume") {
+                        e.1 = 0;
+                    }
+                }
+            }
+            w
+        },
         max_objects: 4,
         max_depth: 1,
         invalid_names: false,
@@ -133,6 +147,9 @@ pub fn run(case: &Case, known: &BTreeSet<String>) -> Outcome {
         }
         if ctx.stop {
             // masked by a known finding: cross-config comparison impossible
+            continue;
+        }
+        if case.param("exact", 0) != 1 {
             continue;
         }
         match &reference {
